@@ -521,6 +521,105 @@ def on_modns(p, r, exc, acc):
         acc.sample(dict(schedule_length=len(r["trace"])))
 
 
+# ------------------------------------------------------------------ two renders of a Template with a decorated top-level def
+DECO_TEMPLATE = """<%!
+def deco(fn):
+    def wrapper(context, *args, **kw):
+        context['sp']()              # the decorator does some work before it calls the def
+        return fn(*args, **kw)
+    return wrapper
+%><%def name="d(x)" decorator="deco">D-${who}-${x}${sp()}</%def>[${d(1)}|${d(2)}]"""
+
+
+def deco_scenario(TPm, RTm, sp):
+    """two renders of one Template with a decorated top-level def: thread bodies, lone outputs, functions traced line by line"""
+    codes = []
+
+    def nested(code, label):
+        codes.append((code, label))
+        for c in code.co_consts:
+            if isinstance(c, type(code)):
+                nested(c, label + "." + c.co_name)
+    nested(RTm._decorate_toplevel.__code__, "_decorate_toplevel")
+    t = TPm.Template(DECO_TEMPLATE)
+    solo = {n: t.render(who=w, sp=lambda: "") for n, w in (("T0", "A"), ("T1", "B"))}
+    fns = {n: (lambda w: (lambda: t.render(who=w, sp=sp)))(w) for n, w in (("T0", "A"), ("T1", "B"))}
+    return dict(fns=fns, solo=solo, codes=codes, cleanup=lambda: None)
+
+
+def autoh_scenario(LKm, AHm, sp):
+    """two renders that inherit through mako.ext.autohandler on a bounded lookup without filesystem checks; /page1's memo is in
+    lookup._uri_cache (an LRU cache) when the threads start, /page2's includes push entries out of it"""
+    import os as _os
+    import shutil as _sh
+    import tempfile as _tf
+    base = _tf.mkdtemp(prefix="c16auto")
+    head = "<%! from mako.ext.autohandler import autohandler %><%inherit file=\"${autohandler(template, context)}\"/>"
+    files = {"autohandler": "R[${next.body()}]", "page1": head + "one-${who}", "page2": head + "two-${who}" + "".join("<%%include file='i%d'/>" % k for k in range(5))}
+    for k in range(5):
+        files["i%d" % k] = "i%d" % k
+    for k, v in files.items():
+        with open(_os.path.join(base, k), "w") as f:
+            f.write(v)
+    lk = LKm.TemplateLookup([base], filesystem_checks=False, collection_size=2)
+    solo = {"T0": lk.get_template("/page1").render(who="A"), "T1": lk.get_template("/page2").render(who="B")}
+    lk.get_template("/page1").render(who="A")          # the memo of /page1's autohandler is in place again
+    fns = {"T0": lambda: lk.get_template("/page1").render(who="A"), "T1": lambda: lk.get_template("/page2").render(who="B")}
+    return dict(fns=fns, solo=solo, codes=[(AHm.autohandler.__code__, "autohandler")], cleanup=lambda: _sh.rmtree(base, ignore_errors=True))
+
+
+def _run_scenario(p, sc_fn, name):
+    LK.os, LK.Template, LK.threading = ORIG["os"], ORIG["Template"], ORIG["threading"]
+    UT.timeit, UT.operator = ORIG["timeit"], ORIG["operator"]
+    holder = {}
+
+    def sp():
+        holder["sched"].point("template")
+        return ""
+    sc = sc_fn(sp)
+    try:
+        sched = holder["sched"] = Sched(p, 2, trace_codes=sc["codes"])
+        ths = [sched.spawn(n, sc["fns"][n]) for n in ("T0", "T1")]
+        dead = None
+        try:
+            sched.run()
+        except Deadlock as e:
+            dead = e
+        return dict(solo=sc["solo"], results=[x.result for x in ths], excs=[x.exc for x in ths], trace=list(sched.trace), deadlock=dead, scenario=name)
+    finally:
+        sc["cleanup"]()
+
+
+def h_deco(p):
+    TPm, RTm = common.mako("template", "runtime")
+    return _run_scenario(p, lambda sp: deco_scenario(TPm, RTm, sp), "decorated-def")
+
+
+def h_autoh(p):
+    import mako.lookup as RLK
+    AH = common.mako("ext.autohandler")
+    return _run_scenario(p, lambda sp: autoh_scenario(RLK, AH, sp), "autohandler-bounded-lookup")
+
+
+def on_render2(p, r, exc, acc):
+    if exc is not None:
+        acc.candidate(kind="harness-exception", input=None, detail="%s: %s" % (type(exc).__name__, str(exc)[:300]))
+        return
+    acc.tags["asserted"] += 1
+    desc = dict(scenario=r["scenario"], schedule=[("%s:%s" % x) for x in r["trace"]])
+    acc.vcs += 1
+    if r["deadlock"] is not None or any(e is not None for e in r["excs"]):
+        acc.candidate(kind="render-thread-failed", input=desc, detail=repr(r["excs"]))
+        return
+    for who, got in zip(("T0", "T1"), r["results"]):
+        acc.vcs += 1
+        if got != r["solo"][who]:
+            acc.candidate(kind="render-output-depends-on-interleaving", input=desc, detail="render of %s gave %r, alone it gives %r" % (who, got, r["solo"][who]))
+    if len(acc.samples) < 4:
+        acc.sample(dict(scenario=r["scenario"], schedule_length=len(r["trace"])))
+
+
+
 def on_render(p, r, exc, acc):
     if exc is not None:
         acc.candidate(kind="harness-exception", input=None, detail="%s: %s" % (type(exc).__name__, str(exc)[:300]))
@@ -680,6 +779,67 @@ sys.exit(1 if bad else 0)
 """.replace("__CASE__", repr(i))
         return (c["kind"], body, ("beaker", tuple(i["schedule"])))
 
+    if i.get("scenario") in ("decorated-def", "autohandler-bounded-lookup"):
+        body = """
+# two real threads; a line tracer in mako's own functions and the scheduling points of the templates hand the baton over exactly
+# as in the schedule found
+import threading, time
+sys.path.insert(0, "/verif")
+CASE = __CASE__
+import mako.template as TPm, mako.runtime as RTm, mako.lookup as LKm, mako.ext.autohandler as AHm
+from props import C16
+order = [x.split(":", 1)[0] for x in CASE["schedule"]]
+st = {"k": 0, "diverged": False, "done": set()}
+cond = threading.Condition()
+NAMES = {"T0", "T1"}
+def my_turn(name):
+    return st["diverged"] or st["k"] >= len(order) or order[st["k"]] == name or (NAMES - {name}) <= st["done"]
+def wait_turn(name):
+    with cond:
+        t0 = time.time()
+        while not my_turn(name):
+            cond.wait(0.05)
+            if time.time() - t0 > 10: st["diverged"] = True
+def arrive(name):
+    with cond:
+        if st["k"] < len(order) and order[st["k"]] == name: st["k"] += 1
+        else: st["diverged"] = st["diverged"] or st["k"] < len(order)
+        cond.notify_all()
+    wait_turn(name)
+def sp():
+    arrive(threading.current_thread().name); return ""
+sc = C16.deco_scenario(TPm, RTm, sp) if CASE["scenario"] == "decorated-def" else C16.autoh_scenario(LKm, AHm, sp)
+codes = dict(sc["codes"])
+def tracer_for(name):
+    def tracer(frame, event, arg):
+        if frame.f_code not in codes: return None
+        def local(frame, event, arg):
+            if event == "line": arrive(name)
+            return local
+        return local
+    return tracer
+res = {}
+def run(name):
+    wait_turn(name)
+    sys.settrace(tracer_for(name))
+    try:
+        res[name] = sc["fns"][name]()
+    except Exception as e:
+        res[name] = "raised %s: %s" % (type(e).__name__, e)
+    finally:
+        sys.settrace(None)
+        with cond:
+            st["done"].add(name); cond.notify_all()
+ths = [threading.Thread(target=run, args=(n,), name=n) for n in ("T0", "T1")]
+for x in ths: x.start()
+for x in ths: x.join()
+sc["cleanup"]()
+print("schedule followed:", not st["diverged"]); print("outputs:", res); print("alone  :", sc["solo"])
+bad = None if res == sc["solo"] else "a render does not produce what it produces when run alone"
+print("VIOLATED: " + bad if bad else "HOLDS")
+sys.exit(1 if bad else 0)
+""".replace("__CASE__", repr(i))
+        return (c["kind"], body, (i["scenario"], tuple(i["schedule"])))
     if i.get("scenario") == "first-use":
         body = """
 # two real threads render one fresh Template; a line tracer in mako's own functions hands the baton over exactly as in the schedule found
@@ -905,6 +1065,11 @@ def run(check, tier):
         jobs.append(("C16-" + name, h_sched(name), on_sched, "all schedules of scenario %s" % name, dict(scenario=SCENARIOS[name].__repr__()), ("asserted",)))
     jobs.append(("C16-renders", h_render, on_render, "two concurrent renders of one inheriting / namespace-using Template with different contexts, "
                  "scheduling points inside the templates, at most 3 preemptions", dict(points="sp() calls in body, defs, call bodies, includes, base template"), ("asserted",)))
+    jobs.append(("C16-deco", h_deco, on_render2, "two concurrent renders of a Template with a decorated top-level def: every line of runtime._decorate_toplevel "
+                 "and its closures, the user decorator and the def body are scheduling points, at most 2 preemptions", dict(preemption_bound=2), ("asserted",)))
+    jobs.append(("C16-autoh", h_autoh, on_render2, "two concurrent renders inheriting through mako.ext.autohandler on a bounded lookup without filesystem checks "
+                 "(memo in lookup._uri_cache, an LRU cache other renders evict from): every line of autohandler() is a scheduling point, at most 2 preemptions",
+                 dict(preemption_bound=2, collection_size=2), ("asserted",)))
     jobs.append(("C16-firstuse", h_firstuse, on_firstuse, "two concurrent first renders of a fresh Template with cached defs: every line of "
                  "Cache.__init__ / _get_cache_kw / _ctx_get_or_create / memoized_property.__get__ is a scheduling point, at most 2 preemptions",
                  dict(points="line level inside the lazily initialising functions", preemption_bound=2), ("asserted",)))
